@@ -25,7 +25,7 @@ type zzRepStream struct {
 	w      *zzWal
 	ghost  *zzGhost
 	acks   []int64
-	fenced bool // set by the harness once NewTerm of a higher term has been answered
+	fenced bool  // set by the harness once NewTerm of a higher term has been answered
 	head   int64 // head offset reported in that NewTerm response
 }
 
